@@ -762,11 +762,16 @@ mutual
       | .tCall => do pure (some (← parseCall fuel token))
       | .tLiteral => do
         let _ ← expect .tRightDelim
-        let literalText ← expect .tText
+        -- an empty literal block has no text token: the nil node (/repo aea8825; it was `expect(itemText)`)
+        let literalText ← next
+        let n ← (if literalText.typ == .tText then pure (some (.rawText literalText.pos literalText.val))
+          else do
+            backup
+            pure none : FP (Option Node))
         let _ ← expect .tLeftDelim
         let _ ← expect .tLiteralEnd
         let _ ← expect .tRightDelim
-        pure (some (.rawText literalText.pos literalText.val))
+        pure n
       | .tCss => do pure (some (← parseCss pf token))
       | .tLog => do
         let _ ← expect .tRightDelim
